@@ -7,6 +7,7 @@ avoided in favour of lists so that the output is independent of PYTHONHASHSEED.
 from __future__ import annotations
 
 import json
+import os
 import random
 
 UINT_ABI = ["uint64", "uint32", "uint16", "uint8", "byte", "bool"]
@@ -652,14 +653,25 @@ class RecipeGen:
         # graphs richer than self/mutual recursion: cycles with chords, helpers calling back)
         self.group_edges = []
         if self.f["recursion"] and r.random() < 0.35:
-            cand = [k for k in range(n) if k < n - router_methods and sigs[k]["deco"] == "sub" and not any(p[0] == "ref" for p in sigs[k]["params"])]
+            cand = [
+                k
+                for k in range(n)
+                if k < n - router_methods
+                and (sigs[k]["deco"] == "sub" or (self.f["abi_recursion"] and sigs[k]["deco"] == "abi"))
+                and not any(p[0] == "ref" for p in sigs[k]["params"])
+            ]
             if len(cand) >= 2:
                 g = sorted(r.sample(cand, r.randrange(2, min(4, len(cand)) + 1)))
+                with_abi = any(sigs[k]["deco"] == "abi" for k in g)
+                if with_abi:
+                    # PyTeal evaluates cycles of ABI subroutines until RecursionError (swallowed in
+                    # store_into); more than a plain two-cycle can take minutes
+                    g = g[:2]
                 for k in g:
                     sigs[k]["group"] = 1
                 for i, k in enumerate(g):
                     self.group_edges.append((k, g[(i + 1) % len(g)]))  # ring
-                for _ in range(r.randrange(0, 3)):
+                for _ in range(0 if with_abi else r.randrange(0, 3)):
                     a, b2 = r.choice(g), r.choice(g)
                     if (a, b2) not in self.group_edges:
                         self.group_edges.append((a, b2))  # chord / back edge / self loop
@@ -696,12 +708,39 @@ class RecipeGen:
                         sc.abis.append(et)
                 v = self.abi_value(sc, out_t)
             body.append(["oset", out_t, v])
+        if s["deco"] == "abi" and (s.get("recursive") or s.get("group")):
+            # PyTeal re-evaluates an ABI callee that is still being evaluated at every call site
+            # (store_into), until RecursionError: more than one re-entrant call per body is
+            # exponential in the recursion depth.  Keep the first, neutralise the others.
+            members = {j for j, x in enumerate(self.subs) if x.get("group") and x["deco"] == "abi"} | ({k} if s.get("recursive") else set())
+            self._limit_reentrant_calls(body, members, [1])
         s["body"] = body
         if s["deco"] == "sub" and s["ret"] in ("u", "b"):
             s["retexpr"] = self.expr(sc, s["ret"], 1)
         if fault and fault["kind"] == "nonexpr":
             s["nonexpr"] = True
         self.cur_sub_index = None
+
+    def _limit_reentrant_calls(self, node, members: set, budget: list):
+        """in place: ABI calls to `members` beyond budget[0] become a harmless statement"""
+        if not isinstance(node, list):
+            return
+        for i, x in enumerate(node):
+            if isinstance(x, list) and x:
+                callee = None
+                if x[0] in ("aset_call", "store_into_call") and len(x) > 2 and isinstance(x[2], int):
+                    callee = x[2]
+                elif x[0] in ("use_call", "oset_call") and len(x) > 1 and isinstance(x[1], int):
+                    callee = x[1]
+                elif x[0] in ("callnone", "call") and len(x) > 1 and isinstance(x[1], int) and self.subs[x[1]]["deco"] == "abi":
+                    callee = x[1]
+                if callee is not None and callee in members:
+                    if budget[0] > 0:
+                        budget[0] -= 1
+                    else:
+                        node[i] = ["pop", ["int", 1]]
+                        continue
+                self._limit_reentrant_calls(x, members, budget)
 
     def _fault_stmt(self, fault):
         if fault["kind"] == "raise":
@@ -929,6 +968,13 @@ class RecipeGen:
 # ------------------------------------------------------------------------------------------
 def gen_features(r: random.Random) -> dict:
     """swarm-style: each run enables a random subset of feature families"""
+    f = _gen_features(r)
+    if os.environ.get("SIM_FORCE_RECURSION"):
+        f.update({"abi": True, "recursion": True, "abi_recursion": True})
+    return f
+
+
+def _gen_features(r: random.Random) -> dict:
     return {
         "abi": r.random() < 0.8,
         "byref": r.random() < 0.5,
@@ -1232,6 +1278,7 @@ def gen_plan(seed: int, cfg: dict) -> dict:
     _fix_sourcemap_ops(ops, programs)
     return {
         "seed": seed,
+        "hr_seed": sub_rng(seed, "hr").getrandbits(32) if not os.environ.get("SIM_NO_HR_JITTER") else None,
         "features": feats,
         "faults_enabled": enabled,
         "schedule_style": style,
